@@ -167,6 +167,18 @@ def gen_spec(rng, idx, quick):
         pre = data_ops() if side in ("before", "both") else []
         post = data_ops() if side in ("after", "both") else []
         (pre if rng.random() < 0.5 else post).extend(queue_ops())
+        # a write that *creates* a field (Share.create with a mapping / a list of pairs / keywords): the share is updated
+        # -- stamped -- when a field was created, and left alone when every named field exists already
+        r3 = random.Random(repr((idx, i, "create")))
+        if i > 0 and r3.random() < 0.15:
+            sp = r3.choice(datashares)
+            pairs = [["c%d" % i, 900000 + i]] if r3.random() < 0.8 else []
+            if r3.random() < 0.4:
+                pairs.insert(r3.randint(0, len(pairs)), [r3.choice(list(cur[sp])), 800000 + i])      # exists: not written
+            if pairs:
+                for f, v in pairs:
+                    cur[sp].setdefault(f, v)
+                (pre if r3.random() < 0.5 else post).append(["create", sp, r3.choice(["dict", "pairs", "kw"]), pairs])
         ticks.append({"pre": pre, "ctl": ctl[i], "post": post})
 
     return {"house": "H%d" % idx, "logger": "lgr", "dt": dt, "t0": 0.0,
@@ -214,6 +226,14 @@ def simulate(spec):
             for f, v in op[2]:
                 s.data[f] = v
             if k == "update":
+                s.updates.append((ev[0], tick))
+        elif k == "create":
+            made = False
+            for f, v in op[3]:
+                if f not in s.data:
+                    s.data[f] = v
+                    made = True
+            if made:
                 s.updates.append((ev[0], tick))
         elif k == "value":
             s.data["value"] = op[2]
